@@ -122,6 +122,16 @@ let handle line =
   | ["strip"; cs; h] -> hex (x_strip_set (unhex cs) (unhex h))
   | ["lstrip"; cs; h] -> hex (x_lstrip_set (unhex cs) (unhex h))
   | ["partition"; c; h] -> let ((a, f), r) = x_partition_c (List.hd (unhex c)) (unhex h) in hex a ^ " " ^ string_of_bool f ^ " " ^ hex r
+  | ["schemes"] -> Stdlib.String.concat "," (List.map ocaml_string xs_names)
+  | ["vvalid"; sc; h] -> (match xs_find (coq_string sc) with None -> "NOSCHEME" | Some s -> res_bool (xs_valid s (unhex h)))
+  | ["vctor"; sc; h] -> (match xs_find (coq_string sc) with None -> "NOSCHEME" | Some s ->
+                          (match xs_ctor s (unhex h) with Ok (t, sh) -> "OK " ^ hex t ^ (if sh then "" else " OUT-OF-THEOREM-DOMAIN") | Err e -> "ERR " ^ string_of_err e))
+  | ["vpair"; sc; a; b] -> (match xs_find (coq_string sc) with None -> "NOSCHEME" | Some s ->
+                          (match xs_pair s (unhex a) (unhex b) with
+                           | Ok ((o, h), c) ->
+                             let f x = if x then "1" else "0" in
+                             "OK " ^ f o.o_eq ^ f o.o_ne ^ f o.o_lt ^ f o.o_le ^ f o.o_gt ^ f o.o_ge ^ " " ^ f h ^ " " ^ (match c with Lt -> "lt" | Eq -> "eq" | Gt -> "gt")
+                           | Err e -> "ERR " ^ string_of_err e))
   | _ -> "BAD " ^ line
 
 let () =
